@@ -9,6 +9,7 @@ import (
 	"testing"
 	"time"
 
+	"github.com/mdzio/go-mqtt/message"
 	"pgregory.net/rapid"
 	"verifharness/census"
 	"verifharness/ev"
@@ -706,4 +707,126 @@ func TestC16Window(t *testing.T) {
 			t.Fatalf("VIOLATION %s replay=%s", f, p)
 		}
 	})
+}
+
+// ---- unit "id-exhaustion": every identifier of a subscriber connection is taken ----
+//
+// A subscriber holds 65535 unacknowledged QoS 1 deliveries (it reads, but does
+// not acknowledge - or acknowledges everything but the first, which keeps the
+// whole queue behind it). A publisher then sends one more matching message and
+// ends. Whatever the broker does about the identifier shortage, the publisher's
+// connection must be torn down in bounded time, and so must everything else.
+
+type C16XCase struct {
+	AckAllButFirst bool   `json:"ack_all_but_first"`
+	PubEnd         string `json:"pub_end"` // disconnect | close
+}
+
+func runC16Exhaust(c C16XCase) (fail, incon string) {
+	if left := census.Lib(); len(left) > 0 {
+		time.Sleep(50 * time.Millisecond)
+		if left = census.Lib(); len(left) > 0 {
+			return "", "library goroutines left over from an earlier case"
+		}
+	}
+	b, err := fix.New(16384, "")
+	if err != nil {
+		return "fixture: " + err.Error(), ""
+	}
+	defer b.Shutdown()
+	S, P := b.Dial("S"), b.Dial("P")
+	S.AutoAck = false
+	var n atomic.Int64
+	S.OnPacket = func(p *codec.Packet, off int64) bool {
+		if p.Type != codec.PUBLISH {
+			return false
+		}
+		if k := n.Add(1); c.AckAllButFirst && k > 1 && p.QoS == 1 {
+			S.SendAsync(codec.Encode(&codec.Packet{Type: codec.PUBACK, PacketID: p.PacketID}))
+		}
+		return true
+	}
+	if _, err := S.Connect(wire.ConnectPacket("xs", true, 300)); err != nil {
+		return "connect: " + err.Error(), ""
+	}
+	if _, err := P.Connect(wire.ConnectPacket("xp", true, 300)); err != nil {
+		return "connect: " + err.Error(), ""
+	}
+	S.Send(&codec.Packet{Type: codec.SUBSCRIBE, PacketID: 1, Topics: [][]byte{[]byte("x/#")}, QoSs: []byte{1}})
+	if _, err := S.Barrier(); err != nil {
+		return "barrier: " + err.Error(), ""
+	}
+	for i := 0; i < 65535; i++ {
+		m := message.NewPublishMessage()
+		m.SetTopic([]byte("x/t"))
+		m.SetPayload([]byte{byte(i), byte(i >> 8)})
+		m.SetQoS(1)
+		if err := b.Srv.Publish(m); err != nil {
+			return fmt.Sprintf("Server.Publish #%d: %v", i, err), ""
+		}
+	}
+	if _, err := S.Barrier(); err != nil {
+		return fmt.Sprintf("subscriber barrier after 65535 deliveries: %v", err), ""
+	}
+	// one more, from a connection that then ends
+	P.SendAsync(codec.Encode(&codec.Packet{Type: codec.PUBLISH, QoS: 1, PacketID: 1, Topic: []byte("x/t"), Payload: []byte("one more")}))
+	if c.PubEnd == "disconnect" {
+		P.SendAsync([]byte{0xE0, 0})
+	} else {
+		settled(200 * time.Millisecond)
+		P.Close()
+	}
+	if !P.WaitTeardown(wire.DefaultWait) {
+		running := 0
+		for _, g := range census.Lib() {
+			if !g.Parked() {
+				running++
+			}
+		}
+		return fmt.Sprintf("the publisher's connection ended (%s) after one more publish to a subscriber whose 65535 identifiers are all taken, yet its teardown has not finished after %v (%d library goroutine(s) still running, not parked: a loop that cannot end)", c.PubEnd, wire.DefaultWait, running), ""
+	}
+	P.Close()
+	S.Close()
+	if !S.WaitTeardown(wire.DefaultWait) {
+		return "the subscriber's teardown did not finish", ""
+	}
+	if returned, _ := b.CloseServer(wire.DefaultWait); !returned {
+		return fmt.Sprintf("Server.Close has not returned after %v although every connection has ended", wire.DefaultWait), ""
+	}
+	return "", ""
+}
+
+func TestC16Exhaust(t *testing.T) {
+	rec := ev.New("C16", "id-exhaustion")
+	defer rec.Flush()
+	if rp := ev.LoadReplay(t, "id-exhaustion"); rp != nil {
+		var c C16XCase
+		json.Unmarshal(rp.Case, &c)
+		if f, _ := runC16Exhaust(c); f != "" {
+			p := rec.Violation("-", "fault", f, c, nil)
+			rec.Flush()
+			t.Fatalf("VIOLATION %s replay=%s", f, p)
+		}
+		return
+	} else if ev.Replaying() {
+		t.Skip()
+	}
+	e := ev.GetEnv()
+	cases := []C16XCase{{false, "disconnect"}, {true, "disconnect"}, {false, "close"}, {true, "close"}}
+	for i, c := range cases {
+		if i%e.Shards != e.Shard {
+			continue
+		}
+		f, incon := runC16Exhaust(c)
+		if incon != "" {
+			rec.Inconclusive()
+			rec.Class("inconclusive: "+incon, 1)
+		}
+		rec.Case(c, incon == "", "all-identifiers-of-a-connection-in-flight")
+		if f != "" {
+			p := rec.Violation("-", "fault", f, c, nil)
+			rec.Flush()
+			t.Fatalf("VIOLATION %s replay=%s", f, p)
+		}
+	}
 }
